@@ -46,7 +46,7 @@ class Crafter:
               evidence_view=None, max_tries=60000):
         cs = self.cs
         parent = cs.block_by_hash[parent_hash]
-        utxo = cs.unspent_transaction_outs_by_hash[parent_hash]
+        utxo = self.tree.utxo(parent_hash)
         h = parent.height + 1
         if others is None:
             others = []
@@ -55,7 +55,7 @@ class Crafter:
                 fees = fees_of(others, utxo)
             except KeyError:
                 fees = 0
-            value = reward_value if reward_value is not None else consensus.get_block_subsidy(h) + fees + reward_delta
+            value = reward_value if reward_value is not None else chain.subsidy(h) + fees + reward_delta
             cb = coinbase(h if cb_height is None else cb_height, max(value, 0), self.keys.pk(miner), split=split,
                           keys=self.keys)
             txs = [cb] + list(others)
@@ -92,7 +92,7 @@ def classes_for(focus):
            "dup_ref_across_txs", "null_ref", "wrong_key_sig", "wrong_key_sig_first_of_two", "wrong_key_sig_last_of_two",
            "outputs_edited", "refs_edited", "placeholder_sig",
            "coinbasedata_sig", "bad_curve_point", "intra_block_spend", "dup_tx"]
-    c02 = ["valid", "valid_multi", "reward_plus1", "reward_exact_fees", "reward_minus1", "fees_wrong_state",
+    c02 = ["valid", "valid_multi", "reward_plus1", "reward_exact_fees", "reward_minus1", "reward_prev_era", "fees_wrong_state",
            "reward_split_exact", "reward_split_plus1", "reward_split_big",
            "zero_output", "max_output", "over_max_output", "u64_output", "total_over_max", "overspend_by_1",
            "reward_no_fee_tx"]
@@ -113,7 +113,7 @@ def make_candidate(cr, klass, parent_hash, now_holder):
     """returns (block, now) for the class, or None when the state offers no material for it"""
     t, rng, keys, cs = cr.tree, cr.rng, cr.keys, cr.cs
     parent = cs.block_by_hash[parent_hash]
-    utxo = cs.unspent_transaction_outs_by_hash[parent_hash]
+    utxo = t.utxo(parent_hash)
     now = parent.timestamp + 200
 
     def one_tx(exclude=()):
@@ -137,14 +137,14 @@ def make_candidate(cr, klass, parent_hash, now_holder):
             for tx in b.transactions[1:]:
                 for i in tx.inputs:
                     r = i.output_reference
-                    old = cs.unspent_transaction_outs_by_hash[b.previous_block_hash]
+                    old = t.utxo(b.previous_block_hash)
                     if r in old and r not in utxo and old[r].public_key.public_key in keys.pks:
                         bad = chain.make_tx(keys, old, [r], [(old[r].value, 0)])
                         return cr.craft(parent_hash, others=[bad]), now
             b = cs.block_by_hash[b.previous_block_hash]
         return None
     if klass == "other_fork_output":
-        for h2, u2 in cs.unspent_transaction_outs_by_hash.items():
+        for h2, u2 in t.own.items():
             if h2 == parent_hash:
                 continue
             for r, o in u2.items():
@@ -253,13 +253,20 @@ def make_candidate(cr, klass, parent_hash, now_holder):
         others = t.random_txs(parent_hash, rng.randrange(0, 3))
         d = {"reward_plus1": 1, "reward_exact_fees": 0, "reward_minus1": -1}[klass]
         return cr.craft(parent_hash, others=others, reward_delta=d), now
+    if klass == "reward_prev_era":
+        # the first block of a subsidy era claiming what its parent's era allowed
+        h = parent.height + 1
+        if chain.subsidy(h - 1) <= chain.subsidy(h):
+            return None
+        others = t.random_txs(parent_hash, rng.randrange(0, 3))
+        return cr.craft(parent_hash, others=others, reward_delta=chain.subsidy(h - 1) - chain.subsidy(h)), now
     if klass in ("reward_split_exact", "reward_split_plus1", "reward_split_big"):
         others = t.random_txs(parent_hash, rng.randrange(0, 3))
         k = rng.choice([2, 3, 3, 4, 5])
         if klass == "reward_split_big":
             # every adjacent pair fits under the limit, the total does not
             h = parent.height + 1
-            lim = consensus.get_block_subsidy(h) + fees_of(others, utxo)
+            lim = chain.subsidy(h) + fees_of(others, utxo)
             vals = [lim // 2] * rng.choice([3, 4, 5])
             cb = Transaction([Input(NULLREF, CoinbaseData(h, b""))], [Output(v, keys.pk(i)) for i, v in enumerate(vals)])
             return cr.craft(parent_hash, txs=[cb] + others), now
@@ -282,13 +289,13 @@ def make_candidate(cr, klass, parent_hash, now_holder):
         tx = t.random_tx(parent_hash, fee_choices=(7,))
         if tx is None:
             return None
-        uh = cs.unspent_transaction_outs_by_hash[head]
+        uh = t.utxo(head)
         try:
             f_head = fees_of([tx], uh)
         except KeyError:
             f_head = fees_of([tx], utxo) + 3
         h = parent.height + 1
-        return cr.craft(parent_hash, others=[tx], reward_value=consensus.get_block_subsidy(h) + f_head), now
+        return cr.craft(parent_hash, others=[tx], reward_value=chain.subsidy(h) + f_head), now
     if klass in ("zero_output", "max_output", "over_max_output", "u64_output", "total_over_max", "overspend_by_1"):
         sp = t.spendable(parent_hash)
         if not sp:
@@ -461,15 +468,15 @@ def independent_evidence(cs, block):
     return summary_hash, sample, block_hash
 
 
-def monitor_accepted(res, prop, cs, block, now, klass, cs_after):
-    """the property's predicate on a block the implementation accepted"""
+def monitor_accepted(res, prop, cs, block, now, klass, cs_after, own=None):
+    """the property's predicate on a block the implementation accepted; `own`: the harness's own ledger per block"""
     parent_hash = block.previous_block_hash
     bad = []
     if parent_hash not in cs.block_by_hash:
         bad.append("accepted with unknown parent")
         return bad
     parent = cs.block_by_hash[parent_hash]
-    utxo = cs.unspent_transaction_outs_by_hash[parent_hash]
+    utxo = own[parent_hash] if own is not None and parent_hash in own else cs.unspent_transaction_outs_by_hash[parent_hash]
     if prop in ("C01", "all"):
         seen = set()
         created = {(t.hash(), i) for t in block.transactions for i in range(len(t.outputs))}
@@ -493,7 +500,7 @@ def monitor_accepted(res, prop, cs, block, now, klass, cs_after):
     if prop in ("C02", "all"):
         try:
             fees = fees_of(block.transactions[1:], utxo)
-            sub = (10 * 100_000_000) // (2 ** (block.height // 1_050_000))
+            sub = chain.subsidy(block.height)
             if sum(o.value for o in block.transactions[0].outputs) > sub + fees:
                 bad.append("reward exceeds subsidy plus fees")
             for tx in block.transactions[1:]:
@@ -541,7 +548,7 @@ def run_ledger(ctx, focus, res=None):
     for ti in range(n_trees):
         cfg = ti % 3
         if cfg == 0:
-            lines = chain.patch(horizon=-1)
+            lines = chain.patch(horizon=-1, halving=5)      # several subsidy eras within a short tree
         elif cfg == 1:
             lines = chain.patch(horizon=-1, interval=6, timespan=6 * 120)
         else:
@@ -604,6 +611,10 @@ def run_ledger(ctx, focus, res=None):
                 at_boundary = [b for b in tree.blocks if (b.height + 1) % I == 0]
                 if at_boundary:
                     parent_hash = rng.choice(at_boundary).hash()
+            if klass.startswith("reward_") and rng.random() < (1.0 if klass == "reward_prev_era" else 0.4):
+                era_last = [b for b in tree.blocks if chain.subsidy(b.height) > chain.subsidy(b.height + 1)]
+                if era_last:
+                    parent_hash = rng.choice(era_last).hash()
             prelude = []
             try:
                 c = make_candidate(cr, klass, parent_hash, prelude)
@@ -647,7 +658,7 @@ def run_ledger(ctx, focus, res=None):
             if verdict == "ok" and blk.height <= horizon:
                 res.count("accepted-below-horizon")
             elif verdict == "ok":
-                for msg in monitor_accepted(res, focus, base, blk, now, klass, after_state):
+                for msg in monitor_accepted(res, focus, base, blk, now, klass, after_state, own=tree.own):
                     res.violations.append({"kind": msg, "class": klass, "block": ser.hex(), "now": now,
                                            "tree": [b.serialize().hex() for b in tree.blocks]})
                 if klass not in EXPECT_VALID and klass not in UNDETERMINED:
